@@ -64,6 +64,19 @@ OPS = [
     (r"\brhs\b", "lhs", "rhs->lhs"),
     (r"\.all_parents\(\)", ".parents()", "all_parents->parents"),
     (r"\.all_parent_ids\(\)", ".parent_ids()", "all_parent_ids->parent_ids"),
+    # second pass
+    (r"(?<=[\w\)\]]) \+ (?=[\w\(\&\*])", " - ", "plus->minus"),
+    (r"(?<=[\w\)\]]) - (?=[\w\(\&\*])", " + ", "minus->plus"),
+    (r"(?<=[\w\)\]]) \* (?=[\w\(])", " / ", "mul->div"),
+    (r"(?<=[\w\)\]]) / (?=[\w\(])", " * ", "div->mul"),
+    (r"(?<=[\w\)\]]) & (?=[\w\(\&\*])", " | ", "bitand->bitor"),
+    (r"(?<=[\w\)\]]) \| (?=[\w\(\&\*])", " & ", "bitor->bitand"),
+    (r"\((\w+), (\w+)\)", "SWAP", "args-swapped"),
+    (r"^(\s*)[A-Za-z_][\w\.]*(?:\(\))?(?:\.[\w]+(?:\(\))?)*\.\w+\([^;]*\);\s*$", "DELETE", "statement-deleted"),
+    (r"\.iter\(\)", ".iter().skip(1)", "iter->skip1"),
+    (r"\b0\.0\b", "1.0", "0.0->1.0"),
+    (r"\b1\.0\b", "0.0", "1.0->0.0"),
+    (r"\b2\.0\b", "1.0", "2.0->1.0"),
 ]
 
 
@@ -115,8 +128,17 @@ def generate():
                             continue
                         if "fn " in code and name in ("lhs->rhs", "rhs->lhs", "omim->orpha", "orpha->omim", "Omim->Orpha", "Orpha->Omim"):
                             continue  # a signature line: renaming a parameter / function is not a mutation
-                        new_ = new if new is not None else str(int(m.group(1)) + 1)
-                        st_, en_ = (m.start(1), m.end(1)) if new is None else (m.start(), m.end())
+                        if name in ("plus->minus", "minus->plus", "mul->div", "div->mul", "bitand->bitor", "bitor->bitand", "args-swapped") and re.search(r"\bfn |\bwhere\b|\bimpl\b|\bdyn\b|^\s*(pub )?(type|use|struct|enum|trait) |=> \(|let \(|\|\(|for \(", code):
+                            continue  # signatures / bounds / patterns are not expressions
+                        if new == "SWAP":
+                            if m.group(1) == m.group(2) or m.group(1) in ("self",) or not re.search(r"\w\($", code[:m.start() + 1]):
+                                continue
+                            new_, st_, en_ = "(%s, %s)" % (m.group(2), m.group(1)), m.start(), m.end()
+                        elif new == "DELETE":
+                            new_, st_, en_ = m.group(1) + "();", m.start(), len(code.rstrip("\n"))
+                        else:
+                            new_ = new if new is not None else str(int(m.group(1)) + 1)
+                            st_, en_ = (m.start(1), m.end(1)) if new is None else (m.start(), m.end())
                         muts.append({"id": "%s:%d:%d:%s" % (rel, ln, st_, name), "file": rel, "line": ln, "col": st_, "end": en_, "new": new_, "op": name, "text": text.rstrip("\n")})
     shutil.rmtree(tmp, ignore_errors=True)
     with open(os.path.join(OUT, "mutants.json"), "w") as f:
